@@ -526,8 +526,11 @@ func (da *DistributedAllocator) loadAllocations(ctx context.Context) error {
 				continue
 			}
 
-			// Allocate in epoch allocator (will set correct generation)
-			da.epochAllocator.Allocate(ctx, alloc.SubscriberID)
+			// Restore the stored address in the epoch allocator (sets the current generation)
+			if err := da.epochAllocator.SetAllocation(alloc.SubscriberID, prefix.IP); err != nil {
+				// Log but continue - might be a conflict
+				continue
+			}
 		} else {
 			// Session mode: set allocation directly from store
 			if err := da.allocator.SetAllocation(alloc.SubscriberID, prefix); err != nil {
@@ -577,12 +580,12 @@ func (da *DistributedAllocator) handleRemoteChange(key string, value []byte, del
 		}
 
 		// Check if we already have this allocation
-		if existing := da.epochAllocator.Lookup(alloc.SubscriberID); existing != nil {
+		if existing := da.epochAllocator.Lookup(alloc.SubscriberID); existing != nil && existing.Equal(prefix.IP) {
 			return // Already in sync
 		}
 
-		// Allocate in epoch allocator
-		da.epochAllocator.Allocate(context.Background(), alloc.SubscriberID)
+		// Apply the announced address in the epoch allocator
+		da.epochAllocator.SetAllocation(alloc.SubscriberID, prefix.IP)
 	} else {
 		// Session mode: check if we already have this allocation
 		if existing := da.allocator.Lookup(alloc.SubscriberID); existing != nil {
